@@ -85,8 +85,8 @@ def instr_to_text(ins):
         return "index %d %s" % (ins[1], _us(ins[2]))
     if n == "indexflat":
         return "indexflat %d %d" % (ins[1], ins[2])
-    if n == "eq":
-        return "eq %d %d" % (ins[1], ins[2])
+    if n in ("eq", "abseq", "releq"):
+        return "%s %d %d" % (n, ins[1], ins[2])
     if n == "update":
         return "update %s %s" % (_f(ins[1]), _us(ins[2]))
     if n == "model":
@@ -225,7 +225,9 @@ def instr_to_coq(ins, tangent=None, dual=False):
         return "IIndex %s %s" % (_cn(ins[1]), _cns(ins[2]))
     if n == "indexflat":
         return "IIndexFlat %s %s" % (_cn(ins[1]), _cn(ins[2]))
-    if n == "eq":
+    if n in ("eq", "abseq", "releq"):
+        # the approximate comparisons are only issued on arrays whose values are identical or far apart, where
+        # they coincide with exact equality: the model's IEq is their specification there
         return "IEq %s %s" % (_cn(ins[1]), _cn(ins[2]))
     if n == "update":
         return "IUpdate %s %s" % (_cf(ins[1]), _cns(ins[2]))
